@@ -11,7 +11,7 @@ import operator
 from hypothesis import strategies as st
 
 from vf.engine import Sub, require, bitstring_module, Violation, in_repo_traceback
-from vf.common import bits_st, attempt, is_raised, CLASSES, MUTABLE, IMMUTABLE, STREAMS, mk, make_promotable, promo_ok, to_bytes, cls_of
+from vf.common import bits_st, bits_of_len, attempt, is_raised, CLASSES, MUTABLE, IMMUTABLE, STREAMS, mk, make_promotable, promo_ok, to_bytes, cls_of
 
 RULE = ("case = pool of 2-5 objects (four bitstring classes, Array, Dtype) + 1..25 calls drawn from a table of the whole public surface (constructors with every "
         "keyword, methods, operators via the operator module, properties and their setters, pack, Dtype, Array) with arguments of the documented type and adversarial "
@@ -576,6 +576,9 @@ def pool_st(draw):
         b = draw(bits_st(max_len=48))
         out.append(['bs', cls, b, draw(st.integers(0, len(b)))])
     out.append(['bs', draw(st.sampled_from(MUTABLE)), draw(bits_st(max_len=48, min_len=1)), 0])
+    if draw(st.integers(0, 2)) == 0:
+        # lengths that mean something to a dtype (and their neighbours in the 8/16 grid): property assignment re-uses the object's own length
+        out[-1][2] = draw(bits_of_len(draw(st.sampled_from([8, 16, 24, 32, 40, 48, 48, 56, 64, 72, 80, 96, 128]))))
     out.append(['bs', draw(st.sampled_from(STREAMS)), draw(bits_st(max_len=48, min_len=1)), 0])
     if draw(st.integers(0, 3)):
         out.append(['array', draw(st.sampled_from(['uint8', 'int4', 'float16', 'hex4', 'bool', '<h', 'e4m3mxfp', 'bytes2'])), draw(st.sampled_from([[], [0], [0, 1], [1, 0, 1]]))])
